@@ -135,8 +135,11 @@ def run(ctx):
             tot[k] += summ["stat"].get(k, 0)
         for v in summ["viol"]:
             clause = v["clause"].replace("C06.Deterministic", "C07.SerialEquivalence")
-            ctx.violation("%s: event %s observed in phase %s differs from phase %s (first differing token %s)"
-                          % (clause, v.get("ev"), v.get("run"), v.get("firstrun"), v.get("firstdiff")),
+            what = ("%s: totals accumulated over all streams in phase %s differ from the same set of events in phase %s"
+                    % (clause, v.get("run"), v.get("firstrun"))) if v.get("ev") is None else (
+                    "%s: event %s observed in phase %s differs from phase %s (first differing token %s)"
+                    % (clause, v.get("ev"), v.get("run"), v.get("firstrun"), v.get("firstdiff")))
+            ctx.violation(what,
                           tags={"clause": clause}, files=[f, sp])
     # ---- ThreadSanitizer as the recorder of access-level events -------------------------------
     races = []
